@@ -745,21 +745,29 @@ func (t *http2Server) updateFlowControl(n uint32) {
 	for _, s := range t.activeStreams {
 		s.fc.newLimit(n)
 	}
-	t.initialWindowSize = int32(n)
+	// Only ever grow the windows: the estimate may be smaller than a
+	// configured initial window.
+	raiseIWS := int64(n) > int64(t.initialWindowSize)
+	if raiseIWS {
+		t.initialWindowSize = int32(n)
+	}
 	t.mu.Unlock()
-	t.controlBuf.put(&outgoingWindowUpdate{
-		streamID:  0,
-		increment: t.fc.newLimit(n),
-	})
-	t.controlBuf.put(&outgoingSettings{
-		ss: []http2.Setting{
-			{
-				ID:  http2.SettingInitialWindowSize,
-				Val: n,
+	if d := t.fc.newLimit(n); d > 0 {
+		t.controlBuf.put(&outgoingWindowUpdate{
+			streamID:  0,
+			increment: d,
+		})
+	}
+	if raiseIWS {
+		t.controlBuf.put(&outgoingSettings{
+			ss: []http2.Setting{
+				{
+					ID:  http2.SettingInitialWindowSize,
+					Val: n,
+				},
 			},
-		},
-	})
-
+		})
+	}
 }
 
 func (t *http2Server) handleData(f *parsedDataFrame) {
